@@ -230,7 +230,7 @@ func nativeNewCtx() sdk.Context {
 	name := key("ctx")
 	h := int64(rawU64named(name + ".height"))
 	ns := int64(rawU64named(name + ".timeNs"))
-	chain := string(rawBytesNamed(name + ".chainID"))
+	chain := "chain-" + strconv.FormatUint(rawU64named(name+".rev"), 10)
 	ctx := sdk.NewContext(cms, cmtproto.Header{Height: h, Time: time.Unix(0, ns).UTC(), ChainID: chain}, false, log.NewNopLogger())
 	for _, r := range w.Reads {
 		k, _ := hex.DecodeString(r.Key)
